@@ -402,6 +402,33 @@ func genC15(p *Pkg) (map[string]string, error) {
 		}
 		fmt.Fprintf(&b, "def recover%s : String := %s\n", strings.ToUpper(name[:1])+name[1:], LeanString(r))
 	}
+	// statements located by prefix inside a function: `what` = (receiver, function, prefix, lean name)
+	for _, it := range [][4]string{
+		{"vm", "handleThrow", "_ = vm._restoreStacks(", "handleThrowRestore"},
+		{"generator", "step", "defer func()", "generatorStepDefer"},
+		{"Runtime", "Try", "defer func()", "tryDefer"},
+	} {
+		fd := p.FuncDecl(it[0], it[1])
+		if fd == nil {
+			return nil, fmt.Errorf("%s.%s not found", it[0], it[1])
+		}
+		found := ""
+		ast.Inspect(fd.Body, func(n ast.Node) bool {
+			if st, ok := n.(ast.Stmt); ok && found == "" {
+				if src := c15Src(p, st); strings.HasPrefix(src, it[2]) {
+					found = src
+					return false
+				}
+			}
+			return true
+		})
+		if found == "" {
+			// the function exists but has no such statement: that is a fact (the Tie theorem naming it stops checking),
+			// not an untranslatable shape
+			found = "<absent>"
+		}
+		fmt.Fprintf(&b, "def %s : String := %s\n", it[3], LeanString(found))
+	}
 	b.WriteString("\nend GojaModel.Generated.C15\n")
 	return map[string]string{"C15_Facts.lean": b.String()}, nil
 }
